@@ -16,6 +16,7 @@ import (
 	"context"
 	"fmt"
 	"io"
+	"math/rand"
 	"runtime"
 	"sync"
 	"sync/atomic"
@@ -49,8 +50,8 @@ type raceSpec struct {
 	Extra          []int `json:"during"`     // delivered by one more goroutine during the race
 	Post           []int `json:"after"`      // delivered sequentially after the race
 	DepAfterMisses int   `json:"dependency_after_misses"`
-	Policy         []int `json:"policy"`    // action for the n-th not-found answer about D (cyclic)
-	SleepUS        []int `json:"sleep_us"`  // duration for actSleep (cyclic)
+	Policy         []int `json:"policy"`     // action for the n-th not-found answer about D (cyclic)
+	SleepUS        []int `json:"sleep_us"`   // duration for actSleep (cyclic)
 	StaggerUS      []int `json:"stagger_us"` // start offsets of the K uploads (cyclic)
 }
 
@@ -191,7 +192,7 @@ func (k *gateKV) Wipe() error { return k.KeyValue.(sorted.Wiper).Wipe() }
 
 // executeRace runs one same-blob race on a fresh index over a fresh memory KV.
 func executeRace(r *ev.Run, w *hw.World, rs *raceSpec) (res result) {
-	fb, db := w.Blobs[rs.F], w.Blobs[rs.D]
+	db := w.Blobs[rs.D]
 	g := newRaceGate(rs, db.Ref)
 	inner := sorted.NewMemoryKeyValue()
 	kv := &gateKV{KeyValue: inner, g: g, key: "meta:" + db.Ref.String()}
@@ -291,4 +292,91 @@ func executeRace(r *ev.Run, w *hw.World, rs *raceSpec) (res result) {
 		r.Count("race_trials_with_overlapping_lookups", 1)
 	}
 	return
+}
+
+// racePair is a (dependant, dependency) pair where indexing the dependant looks the dependency up.
+type racePair struct{ F, D int }
+
+// racePairs lists the pairs of w: signed blobs and their key, files/bytes and their parts,
+// directories and their static set, delete claims and their target.  (A claim does not need its
+// permanode to be indexed, so that edge is no lookup.)
+func racePairs(w *hw.World) []racePair {
+	idx := map[blob.Ref]int{}
+	for i, b := range w.Blobs {
+		idx[b.Ref] = i
+	}
+	var out []racePair
+	for i, b := range w.Blobs {
+		fk := w.Kind[b.Ref]
+		for _, d := range w.Deps[b.Ref] {
+			di, ok := idx[d]
+			if !ok {
+				continue
+			}
+			dk := w.Kind[d]
+			if fk == "claim" && dk != "key" {
+				continue
+			}
+			if fk == "bytes" {
+				continue // a bytes blob is indexed without reading its parts
+			}
+			out = append(out, racePair{i, di})
+		}
+	}
+	return out
+}
+
+func genRace(rng *rand.Rand, w *hw.World, p racePair) *raceSpec {
+	rs := &raceSpec{F: p.F, D: p.D}
+	rs.K = []int{2, 3, 3, 3, 4, 4, 5, 6}[rng.Intn(8)]
+	var others []int
+	for _, i := range rng.Perm(len(w.Blobs)) {
+		if i != p.F && i != p.D {
+			others = append(others, i)
+		}
+	}
+	// how much of the rest arrives before / during / after the race
+	nPre := rng.Intn(len(others) + 1)
+	if rng.Intn(3) == 0 {
+		nPre = len(others)
+	}
+	rs.Pre = others[:nPre]
+	rest := others[nPre:]
+	nExtra := 0
+	if len(rest) > 0 && rng.Intn(3) == 0 {
+		nExtra = 1 + rng.Intn(len(rest))
+	}
+	rs.Extra, rs.Post = rest[:nExtra], rest[nExtra:]
+	rs.DepAfterMisses = rng.Intn(2 * rs.K)
+	weights := [][]int{
+		{actNow, actNow, actYield, actSleep, actHoldDep, actHoldUpload},
+		{actNow, actHoldDep},
+		{actNow, actYield, actSleep},
+		{actNow, actSleep, actHoldDep, actHoldDep},
+	}[rng.Intn(4)]
+	for i := 0; i < 12; i++ {
+		rs.Policy = append(rs.Policy, weights[rng.Intn(len(weights))])
+		rs.SleepUS = append(rs.SleepUS, []int{5, 20, 50, 100, 300, 800}[rng.Intn(6)])
+	}
+	for u := 0; u < rs.K; u++ {
+		rs.StaggerUS = append(rs.StaggerUS, []int{0, 0, 0, 10, 50, 200}[rng.Intn(6)])
+	}
+	return rs
+}
+
+// randomLanes deals the positions 0..n-1 to g lanes at random (each lane keeps ascending
+// position order); about a tenth of the positions is given to one or two further lanes as well.
+func randomLanes(rng *rand.Rand, n, g int) [][]int {
+	lanes := make([][]int, g)
+	for pos := 0; pos < n; pos++ {
+		l := rng.Intn(g)
+		lanes[l] = append(lanes[l], pos)
+		if rng.Intn(10) == 0 {
+			for extra := 1 + rng.Intn(2); extra > 0; extra-- {
+				l2 := rng.Intn(g)
+				lanes[l2] = append(lanes[l2], pos)
+			}
+		}
+	}
+	return lanes
 }
